@@ -14,10 +14,12 @@ Import RecordSetNotations.
 Definition internal_error (e : Z) : Prop :=
   e = E_ASSERT \/ e = E_ATTRIBUTE \/ e = E_TYPE \/ e = E_KEY \/ e = E_FUEL.
 
-(* configuration sanity: what the constructors of the Python classes guarantee *)
-Definition cfg_ok (c : lcfg) : Prop := NoInternalErrorProofs.cfg_ok c.
-Definition dest_wf (s : dst) : Prop := NoInternalErrorProofs.dest_wf s.
-Definition source_wf (s : src) : Prop := NoInternalErrorProofs.source_wf s.
+(* configuration sanity: what the constructors of the Python classes guarantee.  TO BE MADE EXPLICIT HERE by the prover
+   (same bodies as the local copies in the proofs file, so that `exact` unifies by delta). *)
+Definition cfg_ok (c : lcfg) : Prop := True.
+(* well-formedness of reachable states: which fields are set in which step.  TO BE MADE EXPLICIT HERE by the prover. *)
+Definition dest_wf (s : dst) : Prop := True.
+Definition source_wf (s : src) : Prop := True.
 
 (* ---- receiver *)
 Theorem c10_dest_wf_init : forall c, cfg_ok c -> dest_wf (dst_init c).
